@@ -21,7 +21,7 @@ class Participant:
 
 
 def run_schedule(rng, argvs, root, workdir, strategy="pct", max_steps=1500, tau=0.6, preemptions=3,
-                 est_len=120, env_extra=None, ready_marker="/__READY__", watchdog=120.0):
+                 est_len=120, env_extra=None, ready_marker="/__READY__", watchdog=120.0, policy=None):
     """Run the participants (argv lists for the repo's interpreter) under the shim.
 
     Phase 1: participants run one after the other until each has announced the
@@ -127,7 +127,14 @@ def run_schedule(rng, argvs, root, workdir, strategy="pct", max_steps=1500, tau=
             cands = sorted(parked.items(), key=lambda kv: (kv[1][0], kv[1][1]))
             pick = None
             stay = [kv for kv in cands if (kv[1][0], kv[1][1]) == cur]
-            if strategy == "pct":
+            if policy is not None:
+                # a check-owned adversary: policy(candidates as (participant, thread, op, path)) -> index or None
+                k = policy([(kv[1][0], kv[1][1], kv[1][2], kv[1][4]) for kv in cands])
+                if k is not None:
+                    pick = cands[k]
+            if pick is not None:
+                pass
+            elif strategy == "pct":
                 if stay and not (change_points and phase2_step >= change_points[0]):
                     pick = stay[0]
                 else:
